@@ -1076,7 +1076,22 @@ pub fn peer_receiver(seed: u64, family: &str, variant: u8) -> Scenario {
     if r.chance(0.3) {
         opts.mtu_probe_retx = Some(r.below(3) as usize);
     }
+    // retransmission family, "probe tail" shape: the stream is one or two ordinary segments plus
+    // a final piece that is cut as a size probe (the newest, last queued segment), over a lossy
+    // wire: a hole in front of an acknowledged probe, probes expiring while holes are repaired
+    let probe_tail = variant == 2 && r.chance(0.15);
+    if probe_tail {
+        opts.link_mtu = if r.chance(0.7) { None } else { Some(r.range(1200, 3000) as usize) };
+        opts.tx_init = None;
+        opts.tx_max = None;
+        if r.chance(0.6) {
+            opts.mtu_probe_retx = Some(0);
+        }
+    }
+    let link_v = opts.link_mtu.unwrap_or(1500);
+    let mss = min_payload(link_v, ipv6);
     let total = if variant == 4 { r.log_range(1, 300_000) } else { r.log_range(1, 60_000) };
+    let total = if probe_tail { r.range(1, 7) * mss as u64 + r.range(mss as u64 + 1, 2 * mss as u64) } else { total };
     // keep the number of segments per run in the low thousands (tiny rings make tiny segments)
     let seg_cap = (opts.tx_init().max(opts.tx_max())).min(mss).max(16) as u64;
     let total = total.min(1500 * seg_cap);
@@ -1128,8 +1143,14 @@ pub fn peer_receiver(seed: u64, family: &str, variant: u8) -> Scenario {
     if r.chance(0.3) && variant != 2 {
         auto.rx_model = Some(RxModel { buf: r.log_range(mss as u64, 40 * mss as u64) as u32, drain_per_ms: if r.chance(0.5) { 0 } else { r.log_range(1, 2000) as u32 } });
     }
+    if probe_tail {
+        // a plain, honest receiver: what it acknowledges is what the lossy wire let through
+        auto.ack = AckMode::Immediate;
+        auto.sack = true;
+        auto.rx_model = None;
+    }
     let mut steps = vec![];
-    let n_steps = r.range(0, 25);
+    let n_steps = if probe_tail { 0 } else { r.range(0, 25) };
     for _ in 0..n_steps {
         steps.push(PeerStep::Wait(wait_ms(&mut r, true).max(1) * r.range(1, 4)));
         let lossy_allowed = variant != 1;
@@ -1203,8 +1224,8 @@ pub fn peer_receiver(seed: u64, family: &str, variant: u8) -> Scenario {
             let mut net = NetCfg { seed: r.next(), latency_us: *r.pick(&[0u64, 0, 1000, 10_000, 40_000]), ..Default::default() };
             // retransmission family: real loss on the wire in most runs (the peer's ACKs and
             // SACKs then describe genuine holes; ACKs get lost too)
-            if variant == 2 && r.chance(0.6) {
-                net.drop_p = *r.pick(&[0.01, 0.03, 0.08, 0.15]);
+            if variant == 2 && (probe_tail || r.chance(0.6)) {
+                net.drop_p = if probe_tail { *r.pick(&[0.1, 0.2, 0.3]) } else { *r.pick(&[0.01, 0.03, 0.08, 0.15]) };
                 net.protect_syn = true;
             }
             net
@@ -1691,6 +1712,14 @@ pub fn c10_hostile(seed: u64) -> Scenario {
                 Kind::ValidData { len: r.log_range(1, 1000) as usize }
             }
             8 if own.is_some() => Kind::ValidAck,
+            9 if own.is_some() => {
+                // the target's reassembly queue has (receive buffer / initial segment size) slots
+                any_own_data = true;
+                let cap = (t_opts.rx_buf() / min_payload(t_opts.link_mtu(), ipv6)).max(1) as i64;
+                let in_order = r.range(1, 4) as usize;
+                let ahead = (cap - 1 - r.below(in_order as u64 + 2) as i64 + r.below(2) as i64).max(1) as u16;
+                Kind::EdgeData { in_order, ahead }
+            }
             _ => {
                 let mut typ = if r.chance(0.9) { r.below(5) as u8 } else { r.range(5, 15) as u8 };
                 let ver = if r.chance(0.9) { 1 } else { *r.pick(&[0u8, 2, 15]) };
